@@ -5,6 +5,8 @@ open Mido
 structure DState where
   p : PState := {}
   mf : MF := {}
+  port : Port := {}
+  multi : Multi := {}
 
 def words (line : String) : List String :=
   (line.splitOn " ").filter (· ≠ "")
@@ -123,6 +125,31 @@ def handle (st : DState) (line : String) : DState × String :=
         match groups.mapM parseMsg with
         | some ms => if fmt == "text" then (st, showList ((writeSyxText ms).map Char.toNat))
                      else (st, showList (writeSyxBin ms))
+        | none => (st, "bad-op")
+      | _ => (st, "bad-op")
+    | "lreset" => ({ st with port := parsePort args }, "ok")
+    | "lstate" => (st, st.port.showState)
+    | "lop" =>
+      let run (op : LOp) : DState × String := let (p, o) := lstep st.port op; ({ st with port := p }, o.show)
+      match args with
+      | ["send", i] => match parseNat? i with | some i => run (.send i) | none => (st, "bad-op")
+      | ["receive"] => run .receive
+      | ["poll"] => run .poll
+      | ["iter"] => run .iterAll
+      | ["iterpending"] => run .iterPending
+      | ["close"] => run .close
+      | ["exit"] => run .withExit
+      | _ => (st, "bad-op")
+    | "mreset" =>
+      -- children separated by "|"
+      let groups := if args.isEmpty then [] else (splitTracks args).filter (fun g => !g.isEmpty)
+      ({ st with multi := { children := groups.map parsePort } }, "ok")
+    | "mstate" => (st, s!"closed={if st.multi.closed then 1 else 0} queue={commaList (st.multi.queue.map toString)} sleeps={st.multi.sleeps} | " ++
+        " | ".intercalate (st.multi.children.map Port.showState))
+    | "mop" => match args with
+      | ["receive", b] => let (m, o) := st.multi.receive (b == "1"); ({ st with multi := m }, o.show)
+      | ["send", i] => match parseNat? i with
+        | some i => let (m, r) := st.multi.send i; ({ st with multi := m }, match r with | .ok _ => "ok" | .error e => "err " ++ e.name)
         | none => (st, "bad-op")
       | _ => (st, "bad-op")
     | "preset" => ({ st with p := {} }, "ok")
